@@ -77,6 +77,8 @@ structure Target where
   odd : Bool := false        -- an object the checking decorators are not made for (no source, builtin, partial, callable instance, lambda,
                              -- contradictory docstring, Enum, dataclass, …); `isClass` still says whether it is a class object (changed in
                              -- place by class decorators); `hasDoc` / `full` mean nothing for it
+  falsy : Bool := false      -- `bool(obj)` is False (a class whose metaclass defines `__len__`, an empty callable `list` subclass, `__bool__`)
+  generic : Bool := false    -- an ordinary class that lists `typing.Generic[T]` among its bases: its instances want type arguments
 deriving DecidableEq, Repr
 
 /-- the decorator is made for this target: an ordinary function for a function decorator, an ordinary class for a class decorator -/
@@ -98,12 +100,21 @@ inductive CallKind where
   | good          -- keyword call with a conforming value
   | positional    -- positional call
   | wrongType     -- keyword call with a value of the wrong type
+  | unparamInst   -- `x = Cls(); x.m(a=1)` written in the module of the class: an instance created WITHOUT type arguments, conforming call
+  | paramInst     -- `x = Cls[int](); x.m(a=1)` (for a class that is not generic: `x = Cls()`): conforming call
 deriving DecidableEq, Repr
+
+/-- calls that a checking wrapper rejects whatever the class is -/
+def CallKind.misuse : CallKind → Bool
+  | .positional | .wrongType => true
+  | _ => false
 
 /-- reading a property / assigning to it has one form only: `positional` is the same access as `good`
     (`wrongType`: the getter produces / the setter receives a value of the wrong type) -/
 def Member.kind (m : Member) (k : CallKind) : CallKind :=
   match m, k with
+  | _, .unparamInst => .good          -- members are reached through an instance the harness creates itself: a conforming call
+  | _, .paramInst => .good
   | .propGet, .positional => .good
   | .propSet, .positional => .good
   | _, k => k
@@ -111,6 +122,8 @@ def Member.kind (m : Member) (k : CallKind) : CallKind :=
 /-- what an active wrapper does on a call -/
 inductive Effect where
   | checks        -- pedantic: positional calls and wrongly typed values raise a PedanticException
+  | checksGeneric -- pedantic on a class that lists `Generic[…]`: besides, a call on an instance created without type arguments raises
+                  -- PedanticTypeVarMismatchException
   | prints        -- trace / timer: writes to stdout
   | marks         -- the harness decorator: records the call
 deriving DecidableEq, Repr
@@ -137,9 +150,10 @@ def lookup (n : String) : Option Row := rows.find? (fun r => r.name == n)
 /-- value of the receiver's `if <test>:` for a given result of `is_enabled()` -/
 def guardFires (r : Row) (en : Bool) : Bool := if en then r.guardIfEnabled else r.guardIfDisabled
 
-/-- the guarded early `return` -/
-def early (r : Row) : DecoOut :=
-  if r.returnsReceived && r.untouchedBefore && r.passThrough then .ok true true .plain
+/-- the guarded early `return`; a hop that accepts both `@d` and `@d(…)` hands the target on only if it tells the two uses apart by
+    `is None` — told apart by truth value, an object with `bool(obj) == False` is taken for "no target given" -/
+def early (r : Row) (t : Target) : DecoOut :=
+  if r.returnsReceived && r.untouchedBefore && r.passThrough && (r.dispatchOnNone || !t.falsy) then .ok true true .plain
   else .ok false false .plain      -- something else comes back, or the target was touched on the way
 
 /-- the rest of `pedantic.decorator`: docstring check, then a wrapper with behaviour `m` -/
@@ -147,16 +161,17 @@ def wrapFn (r : Row) (hasDoc : Bool) (m : Mode) : DecoOut :=
   if r.requireDocstring && !hasDoc then .raised else .ok false true m
 
 /-- a function decorator of the table; `enF` = `is_enabled()` when the decorator was obtained, `enD` = when applied -/
-def applyFnRow (r : Row) (enF : Option Bool) (enD hasDoc : Bool) : DecoOut :=
+def applyFnRow (r : Row) (enF : Option Bool) (enD : Bool) (t : Target) : DecoOut :=
+  let hasDoc := t.hasDoc
   let wrapped := if r.wrapperAlsoReads then Mode.dynamic .checks else Mode.frozen .checks
   match r.readAt with
   | .never => wrapFn r hasDoc (.frozen .checks)
   | .wrapper => wrapFn r hasDoc (.dynamic .checks)
-  | .decoration => if guardFires r enD then early r else wrapFn r hasDoc wrapped
+  | .decoration => if guardFires r enD then early r t else wrapFn r hasDoc wrapped
   | .factory =>
     match enF with
     | none => .switchError
-    | some e => if guardFires r e then early r else wrapFn r hasDoc wrapped
+    | some e => if guardFires r e then early r t else wrapFn r hasDoc wrapped
 
 /-- a member decorator that is not applied while `decorate` runs but kept and applied on a later attribute access reads the
     switch then, not now (does not occur in the code as it is; coarse: "asks the switch when used") -/
@@ -164,47 +179,57 @@ def deferred : DecoOut → DecoOut
   | .ok a b (.frozen e) => .ok a b (.dynamic e)
   | o => o
 
+/-- a member of a class: an ordinary function -/
+def memberTarget (hasDoc : Bool) : Target := { isClass := false, hasDoc := hasDoc }
+
 /-- `decorator(attr_value)` inside `for_all_methods.decorate`, by the decorator's name; `eager` = applied on the spot -/
 def applyInner (eager : Bool) (n : String) (en hasDoc : Bool) : DecoOut :=
   if n == "trace" || n == "timer" then .ok false true (.frozen .prints)
   else if n == "<mark>" then .ok false true (.frozen .marks)
   else match lookup n with
-    | some r => if eager then applyFnRow r (some en) en hasDoc else deferred (applyFnRow r (some en) en hasDoc)
+    | some r => if eager then applyFnRow r (some en) en (memberTarget hasDoc) else deferred (applyFnRow r (some en) en (memberTarget hasDoc))
     | none => .noRow
 
+/-- the checking wrappers of a class that lists `Generic[…]` ask, on every call, whether the instance was created with type arguments
+    (`_get_type_vars__`, added by `for_all_methods`, → `check_instance_of_generic_class_and_get_type_vars`) — no other wrapper does -/
+def onGeneric (generic : Bool) : Mode → Mode
+  | .frozen .checks => if generic then .frozen .checksGeneric else .frozen .checks
+  | .dynamic .checks => if generic then .dynamic .checksGeneric else .dynamic .checks
+  | m => m
+
 /-- the rest of `for_all_methods.decorate`: every member replaced, a method added, the class itself returned -/
-def classBody (eager : Bool) (n : String) (en hasDoc : Bool) : DecoOut :=
-  match applyInner eager n en hasDoc with
-  | .ok _ _ m => .ok true false m
+def classBody (eager : Bool) (n : String) (en : Bool) (t : Target) : DecoOut :=
+  match applyInner eager n en t.hasDoc with
+  | .ok _ _ m => .ok true false (onGeneric t.generic m)
   | o => o
 
-def applyClassRow (r : Row) (innerArg : String) (enF : Option Bool) (enD hasDoc : Bool) : DecoOut :=
+def applyClassRow (r : Row) (innerArg : String) (enF : Option Bool) (enD : Bool) (t : Target) : DecoOut :=
   let n := if r.inner == "<arg>" then innerArg else r.inner
   match r.readAt with
-  | .never | .wrapper => classBody r.membersEager n enD hasDoc
-  | .decoration => if guardFires r enD then early r else classBody r.membersEager n enD hasDoc
+  | .never | .wrapper => classBody r.membersEager n enD t
+  | .decoration => if guardFires r enD then early r t else classBody r.membersEager n enD t
   | .factory =>
     match enF with
     | none => .switchError
-    | some e => if guardFires r e then early r else classBody r.membersEager n enD hasDoc
+    | some e => if guardFires r e then early r t else classBody r.membersEager n enD t
 
 /-- an object the decorator is not made for: only the early `return` is modelled — it is taken (or not) exactly as for every
     other target, because nothing has looked at the object by then; past it the model is silent -/
-def applyOpaqueRow (r : Row) (enF : Option Bool) (enD : Bool) : DecoOut :=
+def applyOpaqueRow (r : Row) (enF : Option Bool) (enD : Bool) (t : Target) : DecoOut :=
   match r.readAt with
   | .never | .wrapper => .unspecified
-  | .decoration => if guardFires r enD then early r else .unspecified
+  | .decoration => if guardFires r enD then early r t else .unspecified
   | .factory =>
     match enF with
     | none => .switchError
-    | some e => if guardFires r e then early r else .unspecified
+    | some e => if guardFires r e then early r t else .unspecified
 
 def decoOut (d : Deco) (t : Target) (enF : Option Bool) (enD : Bool) : DecoOut :=
   match lookup d.name with
   | none => .noRow
   | some r =>
-    if !fits d t then applyOpaqueRow r enF enD
-    else if d.onClass then applyClassRow r d.innerArg enF enD t.hasDoc else applyFnRow r enF enD t.hasDoc
+    if !fits d t then applyOpaqueRow r enF enD t
+    else if d.onClass then applyClassRow r d.innerArg enF enD t else applyFnRow r enF enD t
 
 /-! ### the state machine -/
 
@@ -250,7 +275,8 @@ def init (e : Option String) : St := ⟨e, [], [], []⟩
 
 def effObs (e : Effect) (k : CallKind) : Obs :=
   match e with
-  | .checks => .called (k != .good) false false
+  | .checks => .called k.misuse false false
+  | .checksGeneric => .called (k.misuse || k == .unparamInst) false false
   | .prints => .called false true false
   | .marks => .called false false true
 
@@ -274,7 +300,7 @@ def rebound (m : Member) (v : Via) : Bool := (m == .classMethod || m == .staticM
 /-- a member of a class decorated with effect `e`, reached through the class or an instance -/
 def effObsM (e : Effect) (m : Member) (v : Via) (k : CallKind) : Obs :=
   match e with
-  | .checks => .called (m.kind k != .good) false false
+  | .checks | .checksGeneric => .called (m.kind k).misuse false false
   | .prints => if rebound m v then .callError else .called false true false
   | .marks => if rebound m v then .callError else .called false false true
 
@@ -289,6 +315,12 @@ def callObsM (md : Mode) (enNow : Option Bool) (m : Member) (v : Via) (k : CallK
     | none => .switchError
     | some true => effObsM e m v k
     | some false => .called false false false
+
+/-- what a plain sub class inherits: the members as they were decided — but the sub class is no generic class itself -/
+def derivedMode : Mode → Mode
+  | .frozen .checksGeneric => .frozen .checks
+  | .dynamic .checksGeneric => .dynamic .checks
+  | m => m
 
 def push (s : St) (m : Mode) : St := { s with handles := s.handles ++ [m] }
 
@@ -350,10 +382,11 @@ def step (s : St) : Op → St × Obs
     match s.handles[h]?, s.targets[h]? with
     | some md, some (some t) =>
       if t.isClass && !t.odd then
-        record (some t) (match md with
+        -- `class S(Base): pass` does not list `Generic[…]` itself: its instances are not asked for type arguments
+        record (some { t with generic := false }) (match md with
           | .dead => (push s .dead, .bad)                 -- no class came out of the decoration
           | .unknown => (push s .unknown, .unspecified)   -- not described
-          | md => (push s md, .derived))
+          | md => (push s (derivedMode md), .derived))
       else record none (push s .dead, .bad)                                                                    -- a function has no sub class
     | _, _ => record none (push s .dead, .bad)
   | .callm h m v k =>
